@@ -8,6 +8,7 @@ import re
 from ..core import Checker, Rule, attr_calls, callee_is, calls_in, kwarg, resolved_calls, short
 from ..interp import Pins, find_nodes, unparse
 from ..model import AnalysisError
+from ..nform import canon_expr
 from .util import inline_displays, effect_table, enclosing_loop, enclosing_stmt, enum_members, every_iteration_reaches, fmt, is_const, parent, returns_of, same, single_def
 
 P = ("C11", "C01", "C06")
@@ -130,7 +131,8 @@ def r_group(ck: Checker) -> None:
     for c in stores:
         strict = "potential_strict" in unparse(c.func.value)  # type: ignore[attr-defined]
         st0 = it.states(c)[0]
-        opname = [n for n, o in st0.origin.items() if o == "used_inequalities[*][0]"]
+        lp_u = enclosing_loop(func, c)
+        opname = [lp_u.target.elts[0].id] if lp_u is not None and isinstance(lp_u.target, ast.Tuple) and len(lp_u.target.elts) == 3 and isinstance(lp_u.target.elts[0], ast.Name) and re.fullmatch(r"used_inequalities\w*\[\*\]\[0\]", st0.origin.get(lp_u.target.elts[0].id, "")) else []
         ck.need(len(opname) == 1, "loop over (op, lit, pos)")
         cond = f"{opname[0]} == ComparisonOperator.NotEqual" if strict else f"{opname[0]} != ComparisonOperator.NotEqual"
         ck.guard(f"{'!=' if strict else '<'} proofs go to the {'strict' if strict else 'ordered'} bucket", func, c, cond, "only a group proven by != alone may be re-ordered with <")
@@ -205,12 +207,20 @@ def r_bundle(ck: Checker) -> None:
     # init_simple
     simple = ck.func(f"{B}.init_simple")
     tests = [n for n in find_nodes(simple.node, lambda n: isinstance(n, ast.If)) if unparse(n.test).endswith(".nstrict_neq")]  # type: ignore[attr-defined]
-    ck.need(len(tests) == 1, "init_simple tests for order literals")
-    it = ck.interp(simple, None, mark_edges={(id(tests[0]), True): "ordered"})
     effects = [c for c in attr_calls(simple, "add") if unparse(c.func.value) in ("self._remove_lits", "self._add_lits")]  # type: ignore[attr-defined]
     ck.need(len(effects) >= 2, "init_simple removes != literals and adds < literals")
-    bad = [c for c in effects if any("ordered" in st.marks for st in it.states(c))]
-    ck.add("`!=` is turned into `<` only if no `<` was needed for the proof", not bad, simple, tests[0], f"rewrite reachable although some symmetry used an order literal: {bool(bad)}",
+    if len(tests) == 1:
+        it = ck.interp(simple, None, mark_edges={(id(tests[0]), True): "ordered"})
+        bad = [c for c in effects if any("ordered" in st.marks for st in it.states(c))]
+        anchor = tests[0]
+    else:
+        # the same test as one expression: flag = not any(sym.nstrict_neq for sym in symmetries)
+        it = ck.interp(simple)
+        key = canon_expr(f"any(sym.nstrict_neq for sym in {simple.params()[1]})")
+        ck.need(any(key in unparse(n) for n in find_nodes(simple.node, lambda n: isinstance(n, (ast.Assign, ast.AnnAssign, ast.If)))), "init_simple tests for order literals")
+        bad = [c for c in effects if not it.holds(c, f"not {key}")]
+        anchor = effects[0]
+    ck.add("`!=` is turned into `<` only if no `<` was needed for the proof", not bad, simple, anchor, f"rewrite reachable although some symmetry used an order literal: {bool(bad)}",
            "with X < Y already required, forcing another order on the same copies can contradict it")
     # the new < literals relate exactly the variables of the removed != literals
     it0 = ck.interp(simple)
@@ -257,7 +267,7 @@ def r_count(ck: Checker) -> None:
         recv = unparse(c.func.value)  # type: ignore[attr-defined]
         arg = unparse(c.args[0]).replace(" ", "")
         stc = it.states(c)[0]
-        idx = [n for n, o in stc.origin.items() if o.endswith(".atom.symbol.arguments)[*][0]")]
+        idx = [n for n, o in stc.origin.items() if re.search(r"\.atom\.symbol\.arguments\)+\[\*\]\[0\]$", o)]
         ck.need(len(idx) == 1, "enumerate over the arguments of the first literal")
         i = idx[0]
         if recv == "nsame":
